@@ -206,6 +206,9 @@ func genCustom(r *Rng, prop string, k int) *RunSpec {
 	case 1:
 		o.Social, o.Federating = false, true
 	}
+	if r.Intn(3) == 0 {
+		o.Scheme, o.MintScheme = "http", "https" // served through the *Scheme entry points
+	}
 	st := newStd(o)
 	a := &st.W.Servers[0]
 	a.Custom = map[string]string{"": "custom"}
